@@ -277,9 +277,11 @@ class System:
         self.notes: list[str] = []
 
     # ---- construction --------------------------------------------------------------------------
-    def add(self, name: str, pattern: str, flags: int = 0, group=None, mid_start: bool = False) -> 'Aut':
+    def add(self, name: str, pattern: str, flags: int = 0, group=None, mid_start: bool = False, strict_end: bool = False) -> 'Aut':
+        """strict_end=True reads every `$` as `\\Z` (end of input only) - used to ask whether the two differ."""
         if self.atoms is not None:
             raise RuntimeError('alphabet already frozen')
+        self._strict_end = strict_end
         tree = sp.parse(pattern, flags)
         fl = tree.state.flags
         seq = tree
@@ -443,7 +445,7 @@ class System:
                     raise Unsupported('$ under MULTILINE')
                 s = n.new()
                 f = n.new()
-                if av is sc.AT_END:
+                if av is sc.AT_END and not getattr(self, '_strict_end', False):
                     m = n.new()
                     n.add_sym(s, NL, m)
                     n.add_sym(m, EOFSYM, f)
